@@ -49,6 +49,12 @@ func stdInsts(trs []uint8, partialModes []string) []InstCfg {
 	return out
 }
 
+// flagOffInsts: full forests whose leaves are all added with Remember == false (the flag is
+// documented as irrelevant for a full forest; after a restore it must still be).
+func flagOffInsts() []InstCfg {
+	return []InstCfg{{Kind: "pollard", FlagOff: true}, {Kind: "map", Full: true, TR: 0, FlagOff: true}}
+}
+
 // revInsts: instances that receive their block data in another accepted shape: every target list in
 // descending order (InstCfg.Rev), every proof with a trailing unused hash (InstCfg.Junk), or both.
 func revInsts(withStump bool) []InstCfg {
@@ -121,7 +127,7 @@ func init() {
 		nrt := pick(c, 5, 6)
 		c.Cov.Bound["restored_forests"] = fmt.Sprintf("Nmax=%d, one serialize/restore transition; Pollard, MapPollard full / partial", nrt)
 		if !c.Expired() {
-			BFS(c, &HistFamily{Nmax: nrt, Insts: stdInsts([]uint8{0, 63}, []string{"all", "even"})[1:], Or: HistOracle{Roots: true, Prop: "C01", OnlyAfter: "roundtrip"}, RTBud: 1}, 0)
+			BFS(c, &HistFamily{Nmax: nrt, Insts: append(stdInsts([]uint8{0, 63}, []string{"all", "even"})[1:], flagOffInsts()...), Or: HistOracle{Roots: true, Prop: "C01", OnlyAfter: "roundtrip"}, RTBud: 1}, 0)
 		}
 		queriedFamily(c, HistOracle{Roots: true, Prop: "C01"})
 		// every block handed over with its targets (and their hashes) in descending order
@@ -161,7 +167,7 @@ func init() {
 		nrt := pick(c, 5, 6)
 		c.Cov.Bound["restored_forests"] = fmt.Sprintf("Nmax=%d, one serialize/restore transition; Pollard, MapPollard full / partial", nrt)
 		if !c.Expired() {
-			BFS(c, &HistFamily{Nmax: nrt, Insts: stdInsts([]uint8{0, 63}, []string{"even"})[1:], Or: HistOracle{Proofs: true, Prop: "C02", OnlyAfter: "roundtrip"}, RTBud: 1, PermLimit: 2}, 0)
+			BFS(c, &HistFamily{Nmax: nrt, Insts: append(stdInsts([]uint8{0, 63}, []string{"even"})[1:], flagOffInsts()...), Or: HistOracle{Proofs: true, Prop: "C02", OnlyAfter: "roundtrip"}, RTBud: 1, PermLimit: 2}, 0)
 		}
 		queriedFamily(c, HistOracle{Proofs: true, ProofSets: "small", Prop: "C02"})
 		tallFamily(c, "C02")
